@@ -126,6 +126,25 @@ def check_input_gtf(gtf, db, complete_db):
             logger.warning("Remove the output folder and restart IsoQuant without --complete_genedb.")
 
 
+def check_db_sequences(db_filename):
+    # A database given directly as --genedb never went through check_input_gtf. The inconsistency that is not reported
+    # anywhere else and gives wrong output silently - a feature whose parent lies on another sequence, i.e. a gene or
+    # transcript id used on several sequences of a file without gene / transcript records - is looked up in the
+    # relations table.
+    db = gffutils.FeatureDB(db_filename)
+    query = ("SELECT p.id, p.seqid, c.id, c.seqid FROM relations r JOIN features p ON p.id = r.parent "
+             "JOIN features c ON c.id = r.child WHERE r.level = 1 AND p.seqid != c.seqid LIMIT 10")
+    inconsistent = [tuple(row) for row in db.execute(query)]
+    for parent_id, parent_seq, child_id, child_seq in inconsistent:
+        logger.warning("Feature %s (%s) is a child of %s, which lies on another sequence (%s)" %
+                       (child_id, child_seq, parent_id, parent_seq))
+    if inconsistent:
+        logger.error("Gene database %s seems to be corrupted (see warnings above): "
+                     "a gene or transcript id is used on several sequences." % db_filename)
+        logger.error("Provide the annotation in GTF format to obtain a corrected version, or fix the ids.")
+        exit(-3)
+
+
 def gtf2db(gtf, db, complete_db=False, check_gtf=True):
     if check_gtf:
         check_input_gtf(gtf, db, complete_db)
